@@ -18,8 +18,8 @@ every call are compared with the model's cleanFile and with what clean_content g
 same text, written back the way clean_file writes them; one line as a string against a one-element list), `seam`
 (ONE multi-line string whose line ends and next line starts could together look like an item — a hex token before a line
 starting with '::', address / MAC / host fragments, password keys at the end of a line, keywords and patterns at the
-break, with LF, CRLF, \x0b, \x0c at the seam — through clean_content(text), compared with the model's cleanString, with
-the list of its lines, with clean_file on the same text and with a split=False command storing it).
+break, with LF, CRLF, \x0b, \x0c at the seam — through clean_content(text): line breaks and markers preserved, equal to
+the model's cleanString; clean_file on the same text = the list of its lines; a split=False command = the string route).
 Oracle (implementation only): two seeds that disagree on a case; an output line whose unique marker is
 missing, duplicated or out of order; an all-blank result returned or stored; a caller's object (allow list,
 filters cache, config, rm_conf, content list, no_obfuscate list) that differs from the deep copy taken before
@@ -859,20 +859,17 @@ def order_violation(case, res):
         if out is not None:
             if out.count("\n") != text.count("\n"):
                 return "clean_content(text): %d line breaks went in, %d came out: %r -> %r" % (text.count("\n"), out.count("\n"), text, out)
-            v = subsequence_violation(text.split("\n"), out.split("\n"))
-            if v:
-                return "clean_content(text): %s (%r -> %r)" % (v, text, out)
-        # the routes agree — up to the NUMBERING of IPv4 / host substitutes, which follows the order items are met (bottom-up
-        # for a list) — wherever the string is not dropped or filtered as ONE line (a pattern / allow list acts on the whole string)
-        plain = case["call"]["allowlist"] is None and (case["call"]["no_redact"] or not any(p in text for p in case["cfg"]["patterns"]))
-        if plain:
-            a, b = canon_numbering(out or None, res["smaps"]), canon_numbering(res["list"], res["lmaps"])
-            if a != b:
-                return "clean_content(text) differs from cleaning its lines one by one: %r vs %r (text %r)" % (out, res["list"], text)
-            if res["file"] != res["list_textmode"]:
-                return "clean_file leaves %r, cleaning the lines of the same text gives %r (text %r)" % (res["file"], res["list_textmode"], text)
-            if res["glue"] not in ("<not run>", out if out else "<E2>"):
-                return "a split=False command stores %r, clean_content(text) gives %r (text %r)" % (res["glue"], out, text)
+            # line i of the result carries exactly the marker of line i of the text (a line masked to its end by a
+            # password pattern may have lost it)
+            for li, lo in zip(text.split("\n"), out.split("\n")):
+                mi, mo = marker(li), marker(lo)
+                if mo != mi and not (mo == [] and "********" in lo):
+                    return "clean_content(text): line %r came out as %r: marker %s instead of %s (%r -> %r)" % (li, lo, mo, mi, text, out)
+        # file route = the list of its (text-mode) lines; a split=False command stores what the string route returns
+        if res["file"] != res["list_textmode"]:
+            return "clean_file leaves %r, cleaning the lines of the same text gives %r (text %r)" % (res["file"], res["list_textmode"], text)
+        if res["glue"] not in ("<not run>", out if out else "<E2>") and out is not None:
+            return "a split=False command stores %r, clean_content(text) gives %r (text %r)" % (res["glue"], out, text)
         return None
     if kind == "file":
         if res["order"]:
@@ -960,21 +957,8 @@ def order_violation(case, res):
     return subsequence_violation(lines, out)
 
 
-def canon_numbering(out, maps):
-    """substitutes of the NUMBERED obfuscators written as their originals (longest first), so that two routes that met the
-    items in a different order can be compared"""
-    if not isinstance(out, str) or maps is None:
-        return out
-    pairs = [(o, s_) for k in ("ip", "hostname") for o, s_ in maps[k]]
-    for o, s_ in sorted(pairs, key=lambda p: -len(p[1])):
-        out = out.replace(s_, "<<%s>>" % o)
-    return out
-
-
 def finding_of(case):
-    """listed finding a failure on this case is an instance of — decided on the INPUT alone"""
-    if case["kind"] == "seam" and password_key_at_break(case["text"]) and "password" not in case["call"]["no_obfuscate"]:
-        return "password-across-line-break"
+    """listed finding a failure on this case is an instance of — decided on the INPUT alone (none is listed for C10)"""
     return None
 
 
@@ -1074,12 +1058,6 @@ SEAMS = [
 SEAM_CHARS = ["\n", "\n", "\n", "\r\n", "\x0b\n", "\n\x0c", "\x0b", "\x0c", "\n\n"]
 
 
-def password_key_at_break(text):
-    """INPUT-ONLY predicate of the listed finding password-across-line-break: a password key with nothing but separators
-    between it and a line break"""
-    return bool(re.search(r"password[A-Za-z0-9_]*(?:[ \t\x0b\x0c\r:\"=*]|--md5+)*\n", text))
-
-
 def gen_seam(rng, i):
     fqdn = rng.choice(["web01.example.org", "myhost.example.org"])
     obf = 1 if rng.random() < 0.95 else 0
@@ -1145,8 +1123,8 @@ def run(chk):
     chk.rule = ("seven kinds of case, each starting from fresh Cleaners. seam (8%): a text of 2-5 lines glued from pairs (end of a line, "
                 "start of the next) that together could look like one item, separated by LF / CRLF / \\x0b / \\x0c, is cleaned as ONE "
                 "string, as the list of its lines, as a file and (30%) as the output of a split=False command; the string result must "
-                "keep the number of line breaks and the markers, equal the model's cleanString under every seed, and agree with the "
-                "other routes up to the numbering of IPv4 / host substitutes. file (10% + one case with a line over 1 MiB): a text of 0-8 "
+                "keep the number of line breaks and carry the marker of one input line per line, in order, and equal the model's cleanString "
+                "under every seed; clean_file must equal cleaning the list of the file's lines, the split=False command the string route. file (10% + one case with a line over 1 MiB): a text of 0-8 "
                 "marker-prefixed lines (long keywords / host names that shrink, short addresses that grow, blank lines, lines dropped by "
                 "patterns or a small allow list, all lines dropped, empty file, symbolic link) with and without trailing newline is "
                 "written to a path and clean_file is called 1-3 times; the bytes after every call are compared with the model and with "
@@ -1175,9 +1153,10 @@ def run(chk):
         "(registration order, set arguments sorted, implementation before registry point) and checked by the comparison",
         "Keyword.mapping() is read from a set: compared sorted",
         "clean_content(text) with one string treats the whole text as ONE line (a pattern or the allow list drops or keeps it as "
-        "a whole; numbering follows the order items are met in the whole text): the routes are compared only where no pattern "
-        "hits and no allow list is given, and up to the numbering of IPv4 / host substitutes; that no recogniser looks across a "
-        "line break is a property of the live patterns, checked by the seam stream, not a theorem",
+        "a whole; numbering follows the order items are met in the whole text; the separator part of a password pattern may "
+        "reach the first word of the next line): for it the property is stated as such - line breaks preserved, every output "
+        "line carries the marker of one input line in order, same result under every seed, equal to the model's cleanString; "
+        "it is NOT required to equal cleaning the lines one by one",
         "lines of a file = Python text-mode lines (universal newlines): clean_file opens the file with open(path, 'r'), so "
         "'\\n', '\\r\\n' and a lone '\\r' end a line and are handed on as '\\n'; the model (universalNewlines before readlines) and "
         "the oracle's independent route cut there and nowhere else",
@@ -1233,8 +1212,6 @@ def run(chk):
         elif c["kind"] == "seam":
             chk.count("seam:lines=%d" % (c["text"].count("\n") + 1))
             chk.count("seam:string=" + ("None" if r0["string"] is None else "text"))
-            if fid:
-                chk.count("seam:password-key-at-break")
             if c.get("glue"):
                 chk.count("seam:split=False command")
         elif c["kind"] == "file":
@@ -1274,10 +1251,7 @@ def run(chk):
         for s in seeds:
             v = order_violation(c, res[s][i])
             if v:
-                # the listed seam finding excuses only what it explains: the string route masking text of the next line
-                # (routes differ, a marker masked) — never a changed number of line breaks or a file / list difference
-                ex = fid if c["kind"] != "seam" or v.startswith("clean_content(text) differs") or "has no source line" in v \
-                    or v.startswith("a split=False command") else None
+                ex = fid
                 chk.failure(v, {"case": c, "seeds": [s]}, finding=ex)
                 break
         if fid is None:
